@@ -268,36 +268,40 @@ def group_orders(names, tier):
 
 
 def tasks(tier, seed):
-    return [('d', i, tier, seed) for i in range(len(designs(tier)))]
+    return [('d', i, sh, NSHARDS, tier, seed) for i in range(len(designs(tier))) for sh in range(NSHARDS)]
+
+
+NSHARDS = 4   # marker placements of one design are spread over this many tasks
 
 
 def run_task(task):
     res = common.Result()
-    _, di, tier, seed = task
+    _, di, shard, nshards, tier, seed = task
     d = designs(tier)[di]
     try:
-        run_design(res, d, tier, seed)
+        run_design(res, d, tier, seed, shard, nshards)
     except Exception as ex:
         res.violation(f'C18/design{di}/task-exception-{type(ex).__name__}', {'kind': 'task'}, traceback.format_exc()[-1500:])
     return res
 
 
-def run_design(res, d, tier, seed):
+def run_design(res, d, tier, seed, shard=0, nshards=1):
     nch = len(d.chains)
     npi, npo = len(d.pis), len(d.pos)
     def base_pattern(bits=0):
-        return {'load': ['01011'[(bits + ci):(bits + ci) + len(ch)] for ci, ch in enumerate(d.chains)],
-                'unload': ['LHHLH'[(bits + ci):(bits + ci) + len(ch)] for ci, ch in enumerate(d.chains)],
+        return {'load': [''.join('01011'[(bits + ci + t) % 5] for t in range(len(ch))) for ci, ch in enumerate(d.chains)],
+                'unload': [''.join('LHHLH'[(bits + ci + t) % 5] for t in range(len(ch))) for ci, ch in enumerate(d.chains)],
                 'capture_pi': ''.join('01'[(k + bits) % 2] for k in range(npi)), 'capture_po': ''.join('HL'[(k + bits) % 2] for k in range(npo))}
     marker_sets = list(itertools.product(*[list(itertools.product((False, True), repeat=len(ch) + 1)) for ch in d.chains]))
     pi_orders = group_orders(d.pis, tier)
     po_orders = group_orders(d.pos, tier)
-    ncase = [0]
+    ncase = [1000 * shard]
     def case(markers, pi_o, po_o, patterns, names='plain', loc=False):
         ncase[0] += 1
         return {'callnames': ncase[0], 'kind': 'stil', 'design': d.to_json(), 'markers': [list(m) for m in markers], 'pi_order': pi_o, 'po_order': po_o, 'patterns': patterns, 'names': names, 'loc': loc}
     # every marker placement x every load string x every unload string (one pattern), default groups
-    for markers in marker_sets:
+    for mi, markers in enumerate(marker_sets):
+        if mi % nshards != shard: continue
         loads = list(itertools.product(*[[''.join(t) for t in itertools.product('01', repeat=len(ch))] for ch in d.chains]))
         unloads = list(itertools.product(*[[''.join(t) for t in itertools.product('LH', repeat=len(ch))] for ch in d.chains]))
         for li, load in enumerate(loads):
@@ -358,7 +362,7 @@ def run_design(res, d, tier, seed):
                 p2['launch_pi'] = pi_string(oi + 1, pulses[0], pi_o); p2['capture_pi'] = pi_string(oi, pulses[1], pi_o)
                 stil_case(res, case(markers, pi_o, d.pos, [p, p2], loc=True))
     # signal-group orders (no markers and one marker set)
-    for markers in (marker_sets[0], marker_sets[-1]):
+    for markers in (marker_sets[0], marker_sets[-1]) if shard == 0 else ():
         for pi_o in pi_orders:
             for po_o in po_orders:
                 p = base_pattern()
